@@ -1,4 +1,194 @@
-(** C25 — number-theory helpers (placeholder while the proofs are being added). *)
+(** C25 — number-theory helpers of mpyc/gmpy.py (the pure-Python stubs) compute what they should.
+    Only statements; models and proofs are in theories/Gmpy.v.  [res] is the outcome type of the
+    model: [Ok v] or the exception raised ([EValue] ValueError, [EZeroDiv] ZeroDivisionError);
+    [EFuel] would be the model running out of loop fuel (excluded by the theorems). *)
 Require Import MPyC.Gmpy.
-From Coq Require Import ZArith Znumtheory List.
+From Coq Require Import ZArith Znumtheory List Bool.
+Import ListNotations.
 Local Open Scope nat_scope.
+Local Open Scope Z_scope.
+
+(** ---- gcdext ---- *)
+Theorem C25_gcdext_total : forall a b, exists g s t, gcdext a b = Ok (g, s, t).
+Proof. exact gcdext_total. Qed.
+Print Assumptions C25_gcdext_total.
+
+Theorem C25_gcdext_bezout : forall a b g s t,
+  gcdext a b = Ok (g, s, t) -> g = Z.gcd a b /\ a * s + b * t = g.
+Proof. exact gcdext_spec. Qed.
+Print Assumptions C25_gcdext_bezout.
+
+(** GMP normalisation (|s| < |b|/(2g), |t| < |a|/(2g) and the listed exceptional cases): only for
+    |a|, |b| <= 64, by computation.  The unbounded statement is NOT proved (see MANIFEST note). *)
+Theorem C25_gcdext_gmp_normal_partial : forall a b, -64 <= a <= 64 -> -64 <= b <= 64 ->
+  match gcdext a b with Ok (g, s, t) => gmp_normal a b g s t | _ => false end = true.
+Proof. exact gcdext_gmp_normal_bounded. Qed.
+Print Assumptions C25_gcdext_gmp_normal_partial.
+
+(** ---- invert: raises exactly when no inverse exists (or m = 0) ---- *)
+Theorem C25_invert_spec : forall x m,
+  (m = 0 \/ Z.gcd x m <> 1) /\ invert x m = EZeroDiv
+  \/ m <> 0 /\ Z.gcd x m = 1 /\ exists y, invert x m = Ok y /\ 0 <= y < Z.abs m
+       /\ (x * y) mod (Z.abs m) = 1 mod (Z.abs m) /\ (1 < Z.abs m -> 0 < y).
+Proof. exact invert_spec. Qed.
+Print Assumptions C25_invert_spec.
+
+(** ---- powmod ---- *)
+Theorem C25_powmod_spec : forall x y m, m <> 0 -> 0 <= y -> powmod x y m = Ok (x ^ y mod m).
+Proof. exact powmod_spec. Qed.
+Print Assumptions C25_powmod_spec.
+
+(** ---- isqrt / is_square / iroot ---- *)
+Theorem C25_isqrt_spec : forall x,
+  (x < 0 /\ isqrt x = EValue) \/
+  (0 <= x /\ exists r, isqrt x = Ok r /\ 0 <= r /\ r * r <= x < (r + 1) * (r + 1)).
+Proof. exact isqrt_spec. Qed.
+Print Assumptions C25_isqrt_spec.
+
+Theorem C25_is_square_spec : forall x, 0 <= x ->
+  exists b, is_square x = Ok b /\ (b = true <-> exists r, x = r * r).
+Proof. exact is_square_spec. Qed.
+Print Assumptions C25_is_square_spec.
+
+Theorem C25_is_square_negative : forall x, x < 0 -> is_square x = Ok false \/ is_square x = EValue.
+Proof. exact is_square_neg. Qed.
+Print Assumptions C25_is_square_negative.
+
+Theorem C25_iroot_spec : forall x n, 0 < x -> 0 < n ->
+  exists y, iroot x n = Ok (y, x =? y ^ n) /\ 0 < y /\ y ^ n <= x < (y + 1) ^ n.
+Proof. exact iroot_spec. Qed.
+Print Assumptions C25_iroot_spec.
+
+Theorem C25_iroot_zero : forall n, iroot 0 n = Ok (0, true).
+Proof. exact iroot_zero. Qed.
+Print Assumptions C25_iroot_zero.
+
+(** ---- jacobi / legendre / kronecker ---- *)
+Theorem C25_jacobi_domain : forall x y, ~ (0 < y /\ Z.odd y = true) -> jacobi x y = EValue.
+Proof. exact jacobi_domain. Qed.
+Print Assumptions C25_jacobi_domain.
+
+(** terminates, value in {-1,0,1}, 0 exactly when gcd(x,y) <> 1.  Equality with the Jacobi symbol in
+    general needs quadratic reciprocity and is NOT proved (partial). *)
+Theorem C25_jacobi_partial : forall x y, 0 < y -> Z.odd y = true ->
+  exists j, jacobi x y = Ok j /\ (j = -1 \/ j = 0 \/ j = 1) /\ (j = 0 <-> Z.gcd x y <> 1).
+Proof. exact jacobi_spec. Qed.
+Print Assumptions C25_jacobi_partial.
+
+Theorem C25_jacobi_periodic : forall x y, 0 < y -> jacobi (x mod y) y = jacobi x y.
+Proof. exact jacobi_mod. Qed.
+Print Assumptions C25_jacobi_periodic.
+
+(** legendre is literally jacobi in the stub (and in the model) *)
+Theorem C25_legendre_is_jacobi : forall x y, legendre x y = jacobi x y.
+Proof. reflexivity. Qed.
+Print Assumptions C25_legendre_is_jacobi.
+
+(** Euler's criterion for every odd prime below 400 and every x, by computation *)
+Theorem C25_jacobi_euler_bounded : forall p x, 2 < p < 400 -> prime p ->
+  jacobi x p = Ok (let e := x ^ ((p - 1) / 2) mod p in if e =? p - 1 then -1 else e).
+Proof. exact jacobi_euler_bounded. Qed.
+Print Assumptions C25_jacobi_euler_bounded.
+
+Theorem C25_kronecker_odd : forall x y, 0 < y -> Z.odd y = true -> kronecker x y = jacobi x y.
+Proof. exact kronecker_odd. Qed.
+Print Assumptions C25_kronecker_odd.
+
+(** ---- is_prime (trial division by 15 small primes + n Miller-Rabin rounds on a random tape) ---- *)
+(** a prime is never rejected: all tapes, all round counts *)
+Theorem C25_is_prime_complete : forall n tp x, prime x -> fst (is_prime_n n tp x) = true.
+Proof. exact is_prime_complete. Qed.
+Print Assumptions C25_is_prime_complete.
+
+Theorem C25_is_prime_false_composite : forall n tp x, fst (is_prime_n n tp x) = false -> ~ prime x.
+Proof. exact is_prime_false_composite. Qed.
+Print Assumptions C25_is_prime_false_composite.
+
+(** whatever passes the small-prime trial division below 1024 is prime (so Miller-Rabin only matters above) *)
+Theorem C25_trial_survivor_prime_bounded : forall x, 53 < x < 1024 -> Z.odd x = true ->
+  trial small_primes x = None -> prime x.
+Proof. exact trial_survivor_prime_1024. Qed.
+Print Assumptions C25_trial_survivor_prime_bounded.
+
+(** the converse direction is probabilistic in the tape; bounded statement by computation: for the
+    odd composites below 4096 that survive trial division at most 1/4 of the bases pass a round *)
+Theorem C25_mr_liars_bounded : forall x, 53 < x < 4096 -> Z.odd x = true -> trial small_primes x = None ->
+  ~ prime x -> 4 * mr_pass_count x <= x - 3.
+Proof. exact mr_liars_bounded_4096. Qed.
+Print Assumptions C25_mr_liars_bounded.
+
+(** ---- next_prime / prev_prime relative to a correct primality oracle ---- *)
+Theorem C25_next_prime_spec : forall (isp : tape -> Z -> bool * tape),
+  (forall tp z, fst (isp tp z) = true <-> prime z) ->
+  forall fuel tp x p tp', next_prime_gen isp fuel tp x = (Ok p, tp') ->
+    prime p /\ x < p /\ forall q, x < q < p -> ~ prime q.
+Proof. exact next_prime_spec. Qed.
+Print Assumptions C25_next_prime_spec.
+
+Theorem C25_prev_prime_spec : forall (isp : tape -> Z -> bool * tape),
+  (forall tp z, fst (isp tp z) = true <-> prime z) ->
+  forall fuel tp x p tp', prev_prime_gen isp fuel tp x = (Ok p, tp') ->
+    prime p /\ p < x /\ forall q, p < q < x -> ~ prime q.
+Proof. exact prev_prime_spec. Qed.
+Print Assumptions C25_prev_prime_spec.
+
+Theorem C25_prev_prime_domain : forall isp fuel tp x, x < 3 -> fst (prev_prime_gen isp fuel tp x) = EValue.
+Proof. exact prev_prime_domain. Qed.
+Print Assumptions C25_prev_prime_domain.
+
+(** without any assumption on the oracle: the result was accepted and every skipped candidate rejected *)
+Theorem C25_search_loop_spec : forall (isp : tape -> Z -> bool * tape) step fuel tp c p tp',
+  search_loop isp step fuel tp c = (Ok p, tp') ->
+  exists k, 0 <= k /\ p = c + step * k /\ (exists t, isp t p = (true, tp')) /\
+            forall i, 0 <= i < k -> exists t, fst (isp t (c + step * i)) = false.
+Proof. exact search_loop_spec. Qed.
+Print Assumptions C25_search_loop_spec.
+
+(** ---- factor_prime_power (soundness; completeness is NOT proved) ---- *)
+Theorem C25_factor_prime_power_sound_partial : forall (isp : tape -> Z -> bool * tape) npf,
+  (forall tp z, fst (isp tp z) = true -> prime z) ->
+  forall tp x p d tp', factor_prime_power_gen isp npf tp x = (Ok (p, d), tp') ->
+    prime p /\ 0 < d /\ x = p ^ d.
+Proof. exact factor_prime_power_sound. Qed.
+Print Assumptions C25_factor_prime_power_sound_partial.
+
+Theorem C25_factor_prime_power_domain : forall isp npf tp x, x <= 1 ->
+  fst (factor_prime_power_gen isp npf tp x) = EValue.
+Proof. exact factor_prime_power_domain. Qed.
+Print Assumptions C25_factor_prime_power_domain.
+
+(** ---- ratrec (soundness, domain, termination; "raises only if no solution" is NOT proved) ---- *)
+Theorem C25_ratrec_sound_partial : forall x y N D n d, ratrec_core x y N D = Ok (n, d) ->
+  0 <= N /\ 0 < D /\ 2 * N * D < y /\ (n - x * d) mod y = 0 /\ - N <= n <= N /\
+  0 < d <= D /\ Z.gcd n d = 1.
+Proof. exact ratrec_core_sound. Qed.
+Print Assumptions C25_ratrec_sound_partial.
+
+Theorem C25_ratrec_domain : forall x y N D,
+  (N < 0 \/ D <= 0 \/ y <= 2 * N * D) -> ratrec_core x y N D = EValue.
+Proof. exact ratrec_core_domain. Qed.
+Print Assumptions C25_ratrec_domain.
+
+Theorem C25_ratrec_terminates : forall x y N D, ratrec_core x y N D <> EFuel.
+Proof. exact ratrec_core_no_fuel. Qed.
+Print Assumptions C25_ratrec_terminates.
+
+(** ---- non-vacuity of the implications ---- *)
+Example C25_nonvacuous_gcdext : gcdext 240 (-46) = Ok (2, -9, -47) /\ gcdext (-6) 4 = Ok (2, -1, -1).
+Proof. vm_compute. repeat split; reflexivity. Qed.
+Example C25_nonvacuous_invert : invert 7 (-40) = Ok 23 /\ invert 6 9 = EZeroDiv /\ invert 5 0 = EZeroDiv.
+Proof. vm_compute. repeat split; reflexivity. Qed.
+Example C25_nonvacuous_roots : iroot 1000 3 = Ok (10, true) /\ iroot 999 3 = Ok (9, false) /\
+  is_square 144 = Ok true /\ isqrt 99 = Ok 9 /\ powmod 3 200 1000 = Ok 1.
+Proof. vm_compute. repeat split; reflexivity. Qed.
+Example C25_nonvacuous_jacobi : jacobi 1001 9907 = Ok (-1) /\ jacobi 21 7 = Ok 0 /\ kronecker 5 (-12) = Ok (-1) /\
+  jacobi 2 4 = EValue.
+Proof. vm_compute. repeat split; reflexivity. Qed.
+Example C25_nonvacuous_prime : prime 61 /\ fst (is_prime (of_list []) 61) = true /\
+  fst (is_prime (of_list []) 3481) = false /\ 4 * mr_pass_count 3481 <= 3481 - 3 /\ trial small_primes 3481 = None /\
+  fst (next_prime 50 (of_list []) 3481) = Ok 3491 /\ fst (prev_prime 50 (of_list []) 2) = EValue.
+Proof. split; [apply is_prime_small_correct; reflexivity|]. vm_compute. repeat split; try reflexivity; discriminate. Qed.
+Example C25_nonvacuous_fpp_ratrec : fst (factor_prime_power 50 (of_list []) (1031 ^ 3)) = Ok (1031, 3) /\
+  fst (factor_prime_power 50 (of_list []) 12) = EValue /\
+  ratrec_core 34 101 7 7 = Ok (1, 3) /\ ratrec_core 50 101 7 7 = Ok (-1, 2) /\ ratrec_core 30 101 7 7 = EValue /\ ratrec_core 1 10 3 2 = EValue.
+Proof. vm_compute. repeat split; reflexivity. Qed.
